@@ -161,7 +161,7 @@ def make_traces(prop, tier, seed, workdir, drive):
     traces.append(s3)
     # S4: exhaustive search of the implementation to a small depth around prepared states
     from concurrent.futures import ThreadPoolExecutor
-    names = ["fresh", "inflight", "answered", "paused", "between", "lastbatch", "oneshot", "module", "reactive", "params", "binding"]
+    names = ["fresh", "inflight", "answered", "paused", "between", "lastbatch", "oneshot", "module", "reactive", "siblings", "params", "binding"]
     if tier == "quick":
         names = [n for n in names if n not in ("fresh", "lastbatch")]
     if os.environ.get("VERIF_SKIP_S4"):      # first pass of the seeded-change runner: the cheap sources only
@@ -261,6 +261,13 @@ FAMILY = {
         "thorough": dict(Deposits="{0}", QosSet="{1}", Caps="{3}", Timeouts="{1, 2}", Freqs="{0, 3}", Totals="{2, 3}",
                          Dts="{1}", Thresholds="{1, 2}", Kinds='{"valid", "bad", "none"}', MaxHeight=7, MaxCtx=1, MaxBatch=3),
     },
+    "react2": {
+        "module": "MC_react2", "extra": "  Reactions <- C_Reactions\n",
+        "quick": dict(Deposits="{0}", QosSet="{1}", Caps="{3}", Timeouts="{1}", Freqs="{0}", Totals="{2}",
+                      Dts="{1}", Thresholds="{1}", Kinds='{"valid"}', MaxHeight=3, MaxCtx=2, MaxBatch=2),
+        "thorough": dict(Deposits="{0}", QosSet="{1}", Caps="{3}", Timeouts="{1, 2}", Freqs="{0, 3}", Totals="{2}",
+                         Dts="{1}", Thresholds="{1}", Kinds='{"valid", "none"}', MaxHeight=4, MaxCtx=2, MaxBatch=2),
+    },
     "restart": {
         "module": "MC_restart", "extra": "  WithRestart <- C_WithRestart\n",
         "quick": dict(Deposits="{0}", QosSet="{1}", Caps="{3}", Timeouts="{1, 2}", Freqs="{0}", Totals="{1, 2}",
@@ -293,12 +300,12 @@ FAMILY = {
 
 PROP_FAMILIES = {
     "C01": ["money", "restart", "two"], "C02": ["money", "lifecycle", "params", "two"], "C03": ["binding", "money", "collateral"],
-    "C04": ["money", "lifecycle", "params", "collateral", "two"], "C05": ["binding", "lifecycle", "collateral"], "C06": ["money", "two"],
+    "C04": ["money", "lifecycle", "params", "collateral", "two"], "C05": ["binding", "lifecycle", "collateral"], "C06": ["money", "two", "react2"],
     "C07": ["money", "two"], "C08": ["lifecycle", "params", "two"],
-    "C09": ["lifecycle", "restart", "react", "two"], "C10": ["lifecycle", "params", "restart", "two"],
-    "C11": ["lifecycle", "params", "restart", "react", "two"], "C12": ["lifecycle", "react"],
+    "C09": ["lifecycle", "restart", "react", "react2", "two"], "C10": ["lifecycle", "params", "restart", "react2", "two"],
+    "C11": ["lifecycle", "params", "restart", "react", "react2", "two"], "C12": ["lifecycle", "react", "react2"],
     "C13": ["money"], "C14": ["binding", "money", "params", "collateral"], "C15": ["binding"],
-    "C16": ["lifecycle", "params", "restart", "react", "two"],
+    "C16": ["lifecycle", "params", "restart", "react", "react2", "two"],
     "C19": ["money"],
 }
 
